@@ -290,6 +290,8 @@ func (r *recorder) recordIncomingXR(latestStats internalStats, pkt *rtcp.Extende
 							//nolint:lll
 							latestStats.RemoteOutboundRTPStreamStats.TotalRoundTripTime += latestStats.RemoteOutboundRTPStreamStats.RoundTripTime
 							latestStats.RemoteOutboundRTPStreamStats.RoundTripTimeMeasurements++
+
+							break
 						}
 					}
 				}
